@@ -120,8 +120,14 @@ impl<'a> FullnameSerializer<'a> {
     // should be in the empty prefix (xhtml, mathml, svg)
     pub(crate) fn add_empty_prefix(&mut self, namespace_id: NamespaceId) {
         let current_fullname_info = self.stack.last_mut().unwrap();
-        let empty_entry = (self.xot.empty_prefix(), namespace_id);
-        current_fullname_info.all_namespaces.push(empty_entry);
+        let empty_prefix = self.xot.empty_prefix();
+        // the new default namespace replaces the one in force so far
+        current_fullname_info
+            .all_namespaces
+            .retain(|(prefix, _)| *prefix != empty_prefix);
+        current_fullname_info
+            .all_namespaces
+            .push((empty_prefix, namespace_id));
     }
 
     pub(crate) fn pop(&mut self, has_namespaces: bool) {
